@@ -59,6 +59,8 @@ fn file_put(g: &mut Gen, cfg: &GenCfg, path: &str, size: usize) -> EditOp {
 fn generate(seed: u64, tier: Tier) -> Scenario {
     let mut r = Rng::new(seed);
     let family = r.below(3);
+    // the collector is sometimes asked to break a (non-existent or stale) lock first
+    let bl = r.chance(1, 3);
     let mut opts = crate::genr::draw_opts_small_blocks(&mut r);
     opts.max_entries_per_hunk = *r.pick(&[2, 3, 100_000]);
     let mut env = draw_env(&mut r);
@@ -108,7 +110,7 @@ fn generate(seed: u64, tier: Tier) -> Scenario {
             }
             actors = vec![
                 ActorSpec::Backup { opts: opts.clone(), alt_src: false },
-                ActorSpec::Delete { bands: vec![1], dry_run: false, break_lock: false },
+                ActorSpec::Delete { bands: vec![1], dry_run: false, break_lock: bl },
             ];
         }
         1 => {
@@ -136,7 +138,7 @@ fn generate(seed: u64, tier: Tier) -> Scenario {
             push_edit(&mut steps, &mut model, again);
             actors = vec![
                 ActorSpec::Backup { opts: opts.clone(), alt_src: false },
-                ActorSpec::Delete { bands: vec![], dry_run: false, break_lock: false },
+                ActorSpec::Delete { bands: vec![], dry_run: false, break_lock: bl },
             ];
         }
         _ => {
@@ -158,7 +160,7 @@ fn generate(seed: u64, tier: Tier) -> Scenario {
             steps2.push(Step::Race {
                 actors: vec![
                     ActorSpec::Backup { opts: last_opts, alt_src: false },
-                    ActorSpec::Delete { bands, dry_run: false, break_lock: false },
+                    ActorSpec::Delete { bands, dry_run: false, break_lock: bl },
                 ],
                 schedule: Schedule::Random(0),
             });
